@@ -471,3 +471,57 @@ Proof.
   exact (forallb_in _ (fun c => nf_eqb (normal (fst c) (snd c)) (NfDispatch [V_str] false)) _ text_constant_ok (d, m)
            (pairs_in _ _ _ _ _ _ Hd Hm)).
 Qed.
+
+(* ---------------------------------------------------------------- 6. text vs binary (C10) *)
+Notation same_visits c :=
+  (forallb (fun db => forallb (fun dt => forallb (fun s =>
+      obs_eqb (predict db (fst (fst c)) (snd (fst c)) s) (predict dt (fst (fst c)) (snd c) s)) strategies)
+    text_value_deserializers) bin_value_deserializers).
+
+Lemma natural_cells_ok : forallb (fun c => same_visits c) natural_cells = true.
+Proof. vm_compute. reflexivity. Qed.
+
+Lemma natural_cells_same_visits : forall m tb tx db dt s,
+  In (m, tb, tx) natural_cells -> In db bin_value_deserializers -> In dt text_value_deserializers -> In s strategies ->
+  predict db m tb s = predict dt m tx s.
+Proof.
+  intros m tb tx db dt s Hc Hdb Hdt Hs.
+  pose proof (forallb_in _ (fun c => same_visits c) _ natural_cells_ok (m, tb, tx) Hc) as H.
+  pose proof (forallb_in _ (fun db => forallb (fun dt => forallb (fun s =>
+      obs_eqb (predict db (fst (fst (m, tb, tx))) (snd (fst (m, tb, tx))) s) (predict dt (fst (fst (m, tb, tx))) (snd (m, tb, tx)) s)) strategies)
+    text_value_deserializers) _ H db Hdb) as H1.
+  pose proof (forallb_in _ (fun dt => forallb (fun s =>
+      obs_eqb (predict db (fst (fst (m, tb, tx))) (snd (fst (m, tb, tx))) s) (predict dt (fst (fst (m, tb, tx))) (snd (m, tb, tx)) s)) strategies)
+    _ H1 dt Hdt) as H2.
+  pose proof (forallb_in _ (fun s =>
+      obs_eqb (predict db (fst (fst (m, tb, tx))) (snd (fst (m, tb, tx))) s) (predict dt (fst (fst (m, tb, tx))) (snd (m, tb, tx)) s))
+    _ H2 s Hs) as H3.
+  apply obs_eqb_eq. exact H3.
+Qed.
+
+(* the text/binary face of finding Q: a unit target is answered with visit_unit by both text deserializers and by the two
+   binary lexer paths, but not by the binary tape *)
+Lemma unit_text_vs_bin_tape_ok :
+  forallb (fun m => forallb (fun s =>
+     obs_eqb (predict D_text_tape_value m T_tint s) ([H_unit], S_ok) &&
+     obs_eqb (predict D_bin_ondemand_tok m T_i32 s) ([H_unit], S_ok) &&
+     obs_eqb (predict D_bin_tape_value m T_i32 s) ([H_int], S_ok)) strategies) [M_unit; M_unit_struct] = true.
+Proof. vm_compute. reflexivity. Qed.
+
+Lemma unit_text_vs_bin_tape : forall m s, In m [M_unit; M_unit_struct] -> In s strategies ->
+  predict D_text_tape_value m T_tint s = ([H_unit], S_ok) /\
+  predict D_bin_ondemand_tok m T_i32 s = ([H_unit], S_ok) /\
+  predict D_bin_tape_value m T_i32 s = ([H_int], S_ok).
+Proof.
+  intros m s Hm Hs.
+  pose proof (forallb_in _ (fun m => forallb (fun s =>
+     obs_eqb (predict D_text_tape_value m T_tint s) ([H_unit], S_ok) &&
+     obs_eqb (predict D_bin_ondemand_tok m T_i32 s) ([H_unit], S_ok) &&
+     obs_eqb (predict D_bin_tape_value m T_i32 s) ([H_int], S_ok)) strategies) _ unit_text_vs_bin_tape_ok m Hm) as H.
+  pose proof (forallb_in _ (fun s =>
+     obs_eqb (predict D_text_tape_value m T_tint s) ([H_unit], S_ok) &&
+     obs_eqb (predict D_bin_ondemand_tok m T_i32 s) ([H_unit], S_ok) &&
+     obs_eqb (predict D_bin_tape_value m T_i32 s) ([H_int], S_ok)) _ H s Hs) as H1.
+  apply andb_split in H1. destruct H1 as [H12 H3]. apply andb_split in H12. destruct H12 as [H1 H2].
+  repeat split; apply obs_eqb_eq; assumption.
+Qed.
